@@ -227,6 +227,32 @@ func (g *c03Gen) anyLeaf() jast.Node {
 	return lit(v)
 }
 
+// castLeaf: a value in a boolean position that is not a boolean: arrays (nested
+// up to three deep) of falsy and truthy members, cast by "some member is truthy"
+func (g *c03Gen) castLeaf() jast.Node {
+	r := g.r
+	var build func(d int) interface{}
+	build = func(d int) interface{} {
+		if d >= 3 || r.Intn(3) == 0 {
+			return []interface{}{0.0, "", false, 0.0, "", 1.0, "a", true, O{}, O{"a": 0.0}}[r.Intn(10)]
+		}
+		n := r.Intn(4)
+		a := make(A, n)
+		for i := range a {
+			a[i] = build(d + 1)
+		}
+		return a
+	}
+	v := build(0)
+	if _, isArr := v.(A); isArr && r.Bool() {
+		g.n++
+		nm := fmt.Sprintf("c%d", g.n)
+		g.doc[nm] = v
+		return &jast.Name{V: nm}
+	}
+	return lit(v)
+}
+
 // expr generates a type-directed operator expression of the wanted kind
 // ("num", "str", "bool", "any").
 func (g *c03Gen) expr(want string, d int) jast.Node {
@@ -238,6 +264,9 @@ func (g *c03Gen) expr(want string, d int) jast.Node {
 		case "str":
 			return g.strLeaf()
 		case "bool":
+			if r.Intn(3) == 0 {
+				return g.castLeaf()
+			}
 			return &jast.Bool{V: r.Bool()}
 		}
 		return g.anyLeaf()
